@@ -75,7 +75,7 @@ def cover(txs):
 
 
 def run_c02(ctx):
-    k = 3 if ctx.quick else 300
+    k = 24 if ctx.quick else 300
     rows, txs, abi, trace = run_wire(ctx, "C02", k)
 
     def mut(bad):
@@ -102,7 +102,7 @@ def run_c02(ctx):
 
 
 def run_c03(ctx):
-    k = 3 if ctx.quick else 300
+    k = 24 if ctx.quick else 300
     rows, txs, abi, trace = run_wire(ctx, "C03", k)
 
     def mut(bad):
@@ -192,8 +192,8 @@ def run_c01(ctx):
     for inv in mc["violated"]:
         ctx.violation("C01|model|" + inv, {"tlc": mc["output"][-3000:]}, replay_src={"tlc_output": mc["output"][-6000:]})
     cases, ncls = export_cases(ctx)
-    k = 1 if ctx.quick else 20
-    nrand = 3000 if ctx.quick else 200000
+    k = 2 if ctx.quick else 20
+    nrand = 8000 if ctx.quick else 200000
     allrows = []
     t1 = ctx.path("cls.ndjson")
     if run_harness_c01(ctx, bindir, [abi, t1, "classes", cases, k, 1], "class"):
@@ -257,7 +257,7 @@ def c17_requests(ctx):
     bindir = C.build_harness(bins=["wire"])
     abi = export_abi(ctx)
     t1 = ctx.path("c17wf.ndjson")
-    C.run_bin(bindir, "wire", [abi, t1, 3 if ctx.quick else 40], env={"VERIF_SEED": ctx.seed}, timeout=3000)
+    C.run_bin(bindir, "wire", [abi, t1, 6 if ctx.quick else 40], env={"VERIF_SEED": ctx.seed}, timeout=3000)
     rows, txs = validate(ctx, "C17", t1, "wf")
     nv = len([t for t in txs if t["tr"] == "virtiofs"])
     if not ctx.quick:
